@@ -78,7 +78,7 @@ fn judge(
     stats: &mut Stats,
 ) -> Option<Violation> {
     let property = cfg.property;
-    for v in info.violations.iter().chain(extra.iter()) {
+    for v in info.violations.iter().chain(info.soft_violations.iter()).chain(extra.iter()) {
         let v = if v.property != property {
             match cfg.claim.and_then(|c| c(v, op, pre, info)) {
                 Some(v2) => v2,
@@ -111,7 +111,17 @@ fn exec(
     let mut fork_violation: Option<Violation> = None;
     let info = if cfg.fork_check {
         // the original store is mutated in place, a fork of it executes the same call
-        let fork = w.clone();
+        let mut fork = w.clone();
+        if t.sid % 3 == 0 {
+            // the other way to copy a store: overwrite an existing one (here: one that is in the
+            // opposite consolidation state and has registered names of its own)
+            let mut target = xot::Xot::new();
+            target.set_text_consolidation(!w.model.cons);
+            target.add_name("left-over");
+            target.clone_from(&w.xot);
+            fork.xot = target;
+            stats.inc("fault/store_fork_made_with_clone_from");
+        }
         let orig = std::mem::replace(w, World::new());
         // (World::new() creates hash tables and draws seeds: read the stream after it)
         let hs = hashseam::get();
